@@ -133,7 +133,14 @@ def _abs(a):
 
 
 def _sign(a):
-    return S.sym_sign(a) if is_sym(a) else (float(np.sign(a)) if isinstance(a, float) else int(np.sign(a)))
+    if is_sym(a):
+        # fork to a concrete sign (keeps everything downstream linear; np.sign is applied to scalars in eqsig)
+        if bool(a > 0):
+            return 1.0
+        if bool(a < 0):
+            return -1.0
+        return 0.0
+    return float(np.sign(a)) if isinstance(a, float) else int(np.sign(a))
 
 
 def _sqrt(a):
